@@ -67,7 +67,8 @@ static void run_prog(void* arg)
     if(!strcmp(f, "msetafter")) { while(entered < (int)ms || returnedW < (int)ms - 1) sched_point("await_enter"); ms = 0; }
     // setafter<k>: Signal::set() issued only once k threads are blocked inside wait: they are current waiters of this set for certain
     if(!strcmp(f, "setafter")) { int ids[16]; while(sched_cond_blocked(ids, 16) < (int)ms) sched_point("await_blocked"); ms = 0; strcpy(f, "set"); }
-    const char* lf = !strcmp(f, "tlu") ? "trylock" : !strcmp(f, "mwaite") ? "mwait" : !strcmp(f, "msetafter") ? "mset" : f;
+    if(!strcmp(f, "waiti")) { /* logged as the wait it is */ }
+    const char* lf = !strcmp(f, "waiti") ? "wait" : !strcmp(f, "tlu") ? "trylock" : !strcmp(f, "mwaite") ? "mwait" : !strcmp(f, "msetafter") ? "mset" : f;
     if(!strcmp(f, "set") && sig)
     {
       // the waiters that are blocked inside Signal::wait at this moment ("current waiters": the set has to release them)
@@ -97,6 +98,8 @@ static void run_prog(void* arg)
       continue;
     }
     else if(!strcmp(f, "wait") && sem) r = sem->wait();
+    // waiti: an untimed wait whose sem_wait is interrupted once by a signal (EINTR): it is still a wait - no failure, one token
+    else if(!strcmp(f, "waiti") && sem) { sched_intr_next_sem_wait(); r = sem->wait(); }
     else if(!strcmp(f, "twait") && sem) r = sem->wait(ms);
     else if(!strcmp(f, "trywait")) r = sem->tryWait();
     else if(!strcmp(f, "signal")) sem->signal();
